@@ -1116,7 +1116,11 @@ func (d *Pegnetd) applyTransactionBatch(
 			if err != nil {
 				return err
 			}
-			balances[tx.Input.Address][tx.Conversion] += uint64(outputAmount)
+			// From the conversion limit on, recordBatch leaves PEG outputs to the
+			// second pass: the batch that requests them cannot spend them
+			if !(currentHeight >= config.PegnetConversionLimitActivation && tx.IsPEGRequest()) {
+				balances[tx.Input.Address][tx.Conversion] += uint64(outputAmount)
+			}
 		} else {
 			balances[tx.Input.Address][tx.Input.Type] -= tx.Input.Amount
 			for _, transfer := range tx.Transfers {
